@@ -145,6 +145,16 @@ pub(crate) mod verif_rig_style {
         }
     }
 
+    /// Overwrite only the width carried by the tab-carrying literals (a style whose literals were re-parsed by `template()` carry
+    /// the default width while the style's own field keeps the old one).
+    pub(crate) fn style_force_literal_width(st: &mut ProgressStyle, w: usize) {
+        for p in st.template.parts.iter_mut() {
+            if let TemplatePart::Literal(TabExpandedString::WithTabs { tab_width, .. }) = p {
+                *tab_width = w;
+            }
+        }
+    }
+
     /// one write through the (private) TabRewriter that format_state wraps around custom keys
     pub(crate) fn tab_rewrite(w: &mut dyn fmt::Write, tw: usize, s: &str) -> fmt::Result {
         use std::fmt::Write as _;
